@@ -140,6 +140,14 @@ def main():
                               "error": (pout or out)[-3000:], "gate": gate}}
             violations.append((C.write_replay(prop, body), True, "proof obligations of %s do not check" % prop))
 
+        # ---- 1b. static ties between the model and the source (tables regenerated from /repo) -------------
+        static_problems = []
+        if hasattr(mod, "static_checks"):
+            try:
+                static_problems = list(mod.static_checks())
+            except Exception as e:
+                static_problems = ["static check crashed: %r" % e]
+
         # ---- 2. cases --------------------------------------------------------
         cases = []
         cdir = os.path.join(C.VERIF, "corpus", prop)
@@ -237,6 +245,15 @@ def main():
                     "oracle": {"violated": what}}
             violations.append((C.write_replay(prop, body), what is None,
                                "; ".join(what) if what else "model and implementation disagree"))
+
+        if static_problems:
+            body = {"kind": "no-failing-input-found", "seed": seed, "tier": tier, "case": None,
+                    "model": {"file": "coq/c_access_table.json", "theorem": "SafetyProofs.quso_access / puso_access / states_access",
+                              "error": static_problems[:20]}}
+            if not any(not ni for _, ni, _ in violations):
+                violations.append((C.write_replay(prop, body), True, "; ".join(static_problems[:3])))
+            else:
+                log.append("static drift: %r" % static_problems[:5])
 
         # ---- 6. evidence -----------------------------------------------------
         samples = []
